@@ -37,6 +37,11 @@ CHECKS = {
          'normalize_opb for every degree; engine S extends to <=7 literals with the constant swept and to all mapping shapes of the box.',
          'Trusted: CrossHair 0.0.110 models of int/bool/list/tuple/range/generator, z3. Conditions that end "Not confirmed" are reported inconclusive and not counted.',
          'DESIGN.md section 3 C04'),
+ 'C16': ('CrossHair/z3-accounted exhaustive walk of finite pre-states x operations of the real graph classes against a set model (enumerative mode: inputs are realised at hash/bisect boundaries)',
+         'Bounded exhaustive state-machine check: every graph on <=3 (thorough 4) vertices as pre-state x one operation with arguments from below 0 to above n; two- and three-step histories at smaller sizes; '
+         'CrossHair reports Confirmed only when the whole finite domain has been visited. Honest label: the solver does bookkeeping here, not reasoning about unknown values.',
+         'Trusted: CrossHair exhaustiveness accounting, the set-of-pairs model. Outside: larger graphs, longer histories.',
+         'DESIGN.md section 3 C16'),
 }
 NA = {}
 
